@@ -4,7 +4,7 @@
    process_keyevent at once.  Parametric in the scancode automaton A and the layout dictionary f.
    Mentions no generated function (only generated TYPES: KeyEvent, DecodedKey, EventDecoder record). *)
 From Coq Require Import NArith Bool List.
-From PK Require Import Base.Outcome Base.Machine Gen.Types Impl Spec.Frame Spec.Event.
+From PK Require Import Base.Outcome Base.Machine Gen.Types Impl Spec.Frame Spec.EventRec.
 Import ListNotations.
 Local Open Scope N_scope.
 
